@@ -6,7 +6,8 @@
    all 10-bit message types), every decode behaviour d, every status s: any code (in particular
    all 65536), any description (byte list), any nested FieldError / ParameterError tree. *)
 From Coq Require Import NArith List.
-From LLRP Require Import Client.Status Client.StatusProofs Client.StatusExchange Client.StatusExchangeProofs.
+From LLRP Require Import Client.Status Client.StatusProofs Client.StatusExchange Client.StatusExchangeProofs
+  Client.StatusDriver Client.StatusDriverProofs.
 Import ListNotations.
 Open Scope N_scope.
 
@@ -202,3 +203,48 @@ Proof.
   split; [reflexivity|].
   apply Forall_cons; [right; cbn; discriminate|]. apply Forall_cons; [right; cbn; discriminate|]. apply Forall_nil.
 Qed.
+
+(* ==== round 6: the device service's exchange (internal/driver: LLRPDevice.TrySend, through which
+   Driver.HandleReadCommands, Driver.HandleWriteCommands and onConnect perform every exchange) ============
+   Model: Client/StatusDriver.v — [try_send fuel atts]: attempts that find no usable connection are retried
+   (at most [fuel] attempts in all); the first attempt that completes a SendFor exchange decides. *)
+
+(* which attempt decides: the first one that is not retried, if it is among the allowed attempts *)
+Theorem C12_device_exchange_decided_by_first_completed : forall fuel atts o,
+  try_send fuel atts = TSOutcome o <->
+  exists pre post, atts = pre ++ AOutcome o :: post /\ forallb retried pre = true /\ (length pre < fuel)%nat.
+Proof. exact try_send_decides. Qed.
+Print Assumptions C12_device_exchange_decided_by_first_completed.
+
+(* sentence 1 for the device service: success exactly when that attempt's reply has the expected type and
+   carries status Success — for every expected type, reply type, status, payload, and any retries before it *)
+Theorem C12_device_exchange_success_iff : forall fuel pre post e r d s,
+  forallb retried pre = true -> (length pre < fuel)%nat -> d e = DecStatus s ->
+  (ts_err (try_send fuel (pre ++ AOutcome (send_for_outcome e r d) :: post)) = None <-> r = e /\ st_code s = 0).
+Proof. exact device_exchange_success_iff. Qed.
+Print Assumptions C12_device_exchange_success_iff.
+
+(* sentence 2: expected type or ERROR_MESSAGE with any other status -> the error carries code, description,
+   FieldError and the whole ParameterError tree *)
+Theorem C12_device_exchange_exposes_status : forall fuel pre post e r d s,
+  forallb retried pre = true -> (length pre < fuel)%nat ->
+  r = e \/ r = MsgErrorMessage -> d r = DecStatus s -> st_code s <> 0 ->
+  ts_err (try_send fuel (pre ++ AOutcome (send_for_outcome e r d) :: post)) =
+    Some (EStatus (st_code s) (st_desc s) (st_field s) (st_param s)).
+Proof. exact device_exchange_exposes_status. Qed.
+Print Assumptions C12_device_exchange_exposes_status.
+
+(* no success without a completed exchange *)
+Theorem C12_device_exchange_gave_up_is_error : forall fuel atts,
+  try_send fuel atts = TSGaveUp -> ts_err (try_send fuel atts) <> None.
+Proof. exact device_exchange_gave_up_is_error. Qed.
+Print Assumptions C12_device_exchange_gave_up_is_error.
+
+(* non-vacuity: no client, then a closed client, then DELETE_ROSPEC_RESPONSE (31) with status 201 on the
+   third and last allowed attempt *)
+Example C12_example_device_exchange :
+  ts_err (try_send 3 [ANoClient; AClosed; AOutcome (send_for_outcome 31 31 (decoded_wf ex_status))]) =
+  Some (EStatus 201 [112; 195; 169] (st_field ex_status) (st_param ex_status)) /\
+  ts_err (try_send 2 [ANoClient; AClosed; AOutcome (send_for_outcome 31 31 (decoded_wf ex_status))]) <> None /\
+  ts_err (try_send 3 [AOutcome (send_for_outcome 31 31 (decoded_wf (mkStatus 0 [] None None)))]) = None.
+Proof. vm_compute. repeat split; discriminate. Qed.
